@@ -80,15 +80,17 @@ class Filter(collections.namedtuple('Filter', ['property', 'op', 'value'])):
             False otherwise.
         """
         # If filtering on a timestamp property and the filter value is a string,
-        # try to convert the filter value to a datetime instance.
+        # try to convert the filter value to a datetime instance.  A datetime
+        # instance is converted too: a timezone-naive one means UTC.
         if isinstance(stix_obj_property, datetime) and \
-                isinstance(self.value, str):
+                isinstance(self.value, (str, datetime)):
             filter_value = stix2.utils.parse_into_datetime(self.value)
         elif isinstance(stix_obj_property, datetime) and \
                 isinstance(self.value, (list, tuple, set, frozenset)):
             # (the "in" operator): convert the timestamp strings among them
             filter_value = [
-                stix2.utils.parse_into_datetime(v) if isinstance(v, str) else v
+                stix2.utils.parse_into_datetime(v)
+                if isinstance(v, (str, datetime)) else v
                 for v in self.value
             ]
         else:
